@@ -341,4 +341,13 @@ var pastCrashers = [][3]string{
 	{"s", "$a = [\"a\": 1, \"b\": 2]; echo count($a);", "run"},
 	{"s", "$b = [$a, 'k' => [1, 'k' => $a]$e = 1;];", "run"},
 	{"s", "trait T { public $x = 1; public $x = 2; }\nclass A { use T; }\n", ""},
+	{"s", "$f = fn() => ; echo $f();", "run"},
+	{"s", "$n = 'x'; echo \"a@{}b\"; echo \"a@{ }b\";", "run"},
+	{"t", "<?php\n// \xff\xff\xff\xff\xff\xff\xff\xff\nif (1) {} endif;\n", ""},
+	{"s", "$a = 1; $z = " + strings.Repeat("[$a, ", 26) + "1" + strings.Repeat("]", 26) + "; echo 'x';", "run"},
+	{"s", "$x = (int); echo $x;", "run"},
+	{"s", "echo ();", "run"},
+	{"s", "$o = {: 1}; echo 1;", "run"},
+	{"s", "$z = 0; echo 5 % 0;", "run"},
+	{"s", "function neverCalled() { return 7 % 0; } echo 1;", "run"},
 }
